@@ -141,7 +141,8 @@ def ensure_built():
     lk = _lock()
     try:
         if not os.path.exists(os.path.join(COQ, 'Makefile')):
-            r = subprocess.run(['bash', os.path.join(VERIF, 'setup.sh')], capture_output=True, text=True)
+            r = subprocess.run(['bash', os.path.join(VERIF, 'setup.sh')], capture_output=True, text=True,
+                               env=dict(os.environ, VERIF_LOCK_HELD='1'))
         else:
             r = subprocess.run('ulimit -s unlimited 2>/dev/null; timeout 3000 make -k -j16 -C %s' % COQ, shell=True,
                                capture_output=True, text=True)
